@@ -112,7 +112,7 @@ static bool same_snapshot(const Snapshot &a, const Snapshot &b, std::string *why
 }
 
 // performs the invalid call; returns the library's return code (NULL results mapped to 1), -9999 if not applicable
-static int do_bad_call(mpq_QSprob p, const Model &m, int fn, int bnd, int pos, std::string &desc) {
+int do_bad_call(mpq_QSprob p, const Model &m, int fn, int bnd, int pos, std::string &desc) {
   int n = m.n(), mm = m.m();
   int badrow = bad_index(bnd, mm, m), badcol = bad_index(bnd, n, m);
   Q one(1), two(2);
@@ -320,6 +320,8 @@ static std::string c07_context(const Case &c) {
     }
   return "";
 }
+
+int c07_nfuncs() { return F_NFUNCS; }
 
 void c07_run(const Case &c, Result &r) {
   size_t pos = 0;
